@@ -5,12 +5,18 @@ def codec(**kw):
     d.update(kw)
     return d
 
+def net(**kw):
+    d = {"worker": "net", "variant": "plain"}
+    d.update(kw)
+    return d
+
 LEVEL = {}
 PLAN = {
     "C01": {"steps": [codec()]},
     "C02": {"steps": [codec(),
                       codec(variant="asan", part="heap", tiers=["thorough"]),
                       codec(variant="checkptr", part="heap", tiers=["thorough"])]},
+    "C03": {"steps": [net(), net(variant="race", tiers=["thorough"])]},
     "C08": {"steps": [codec()]},
     "C10": {"steps": [codec()]},
     "C12": {"steps": [codec()]},
